@@ -234,8 +234,48 @@ pub fn winding_signed_zero<S: Src>(s: &mut S, n: i8) {
     core::mem::forget(ring);
 }
 
+/// signed zeros on the fixed-size types: position / intersects of a query against a Rect, a Line and
+/// a Triangle whose zero coordinates (and the query's) carry symbolic signs must be those of the
+/// integer values (-0.0 and +0.0 are the same real number)
+pub fn fixed_signed_zero<S: Src>(s: &mut S, n: i8) {
+    use geo::coordinate_position::CoordinatePosition;
+    let (a, b, c, q) = (gp(s, n), gp(s, n), gp(s, n), gp(s, n));
+    let mut z = |v: W| -> f64 {
+        let neg = s.bool();
+        if v == 0 && neg {
+            -0.0
+        } else {
+            v as f64
+        }
+    };
+    let (ca, cb, cc, cq): (Coord<f64>, Coord<f64>, Coord<f64>, Coord<f64>) =
+        (coord! {x: z(a.0), y: z(a.1)}, coord! {x: z(b.0), y: z(b.1)}, coord! {x: z(c.0), y: z(c.1)}, coord! {x: z(q.0), y: z(q.1)});
+    let to = |p: Pos| match p {
+        Pos::Interior => CoordPos::Inside,
+        Pos::Boundary => CoordPos::OnBoundary,
+        Pos::Exterior => CoordPos::Outside,
+    };
+    let (mn, mx) = ((a.0.min(b.0), a.1.min(b.1)), (a.0.max(b.0), a.1.max(b.1)));
+    let r = geo_types::Rect::new(ca, cb);
+    let wr = rect_pos(q, mn, mx);
+    assert!(r.coordinate_position(&cq) == to(wr), "Rect coordinate_position changes with the sign of a zero coordinate");
+    assert!(r.intersects(&cq) == (wr != Pos::Exterior), "Rect intersects(Coord) changes with the sign of a zero coordinate");
+    let l = Line::new(ca, cb);
+    let wl = line_pos(q, a, b);
+    assert!(l.coordinate_position(&cq) == to(wl), "Line coordinate_position changes with the sign of a zero coordinate");
+    assert!(l.intersects(&cq) == (wl != Pos::Exterior), "Line intersects(Coord) changes with the sign of a zero coordinate");
+    if orient(a, b, c) != 0 {
+        let t = Triangle(ca, cb, cc);
+        let wt = tri_pos(q, a, b, c);
+        assert!(t.coordinate_position(&cq) == to(wt), "Triangle coordinate_position changes with the sign of a zero coordinate");
+        assert!(t.intersects(&cq) == (wt != Pos::Exterior), "Triangle intersects(Coord) changes with the sign of a zero coordinate");
+    }
+    vcover!(cq.x == 0.0 && cq.x.is_sign_negative() && mn.0 == 0 && !r.min().x.is_sign_negative() && wr == Pos::Boundary, "a -0.0 query abscissa on the +0.0 edge of the rectangle");
+}
+
 harnesses! {
     fn c03_orient_int_g8(s) { orient_int(s) }
+    #[kani::unwind(6)] #[kani::stub(robust::orient2d, crate::stubs::orient2d_small)] fn c03_fixed_signed_zero_g1(s) { fixed_signed_zero(s, 1) }
     #[kani::unwind(8)] #[kani::stub(robust::orient2d, crate::stubs::orient2d_small)] fn c03_signed_zero_g1(s) { winding_signed_zero(s, 1) }
 
     #[kani::stub(robust::orient2d, crate::stubs::orient2d_exact)] fn c03_kernel_f64_fr0(s) { float_kernel(s, 0) }
